@@ -13,8 +13,8 @@ NA = {
  "C20": "tombstone_value_states and everything it could affect is async storage code; the verifier-side tombstone clauses are decided under C07",
 }
 TEXT = {
- "C10": ("Symbolic execution of the rustc MIR of the commit step of a publish (the async StorageManager::commit_transaction, walked as a coroutine with the transaction log, the object cache and the database as event sources) and of the transaction log's begin / commit / rollback: on every path the log is drained first (no transaction left open), a commit whose database write fails as a whole leaves nothing of itself in the object cache and returns the error, and exactly the logged records are written. Kernel-level claim for the 'commit write failing as a whole' clause of the property; the defect F-C10 (fixed) - a failed commit stayed in the cache, so the same instance reported the new epoch - was found by it.",
-         "own MIR path walker (vk/mirsmt/corowalk.py, commitw.py, txn.py) + z3; callees opaque; counterexamples confirmed by native_commitfail (real Directory over a database that refuses the commit write, with and without cache); read failures and Directory::publish's rollback paths not covered"),
+ "C10": ("Symbolic execution of the rustc MIR of the commit step of a publish (the async StorageManager::commit_transaction, walked as a coroutine with the transaction log, the object cache and the database as event sources) and of the transaction log's begin / commit / rollback: on every path the log is drained first (no transaction left open), a commit whose database write fails as a whole leaves nothing of itself in the object cache and returns the error, and exactly the logged records are written. The same walker decides Directory::publish's own control flow: no transaction left open on any returning path, an error means 'not committed' (nothing fallible after a successful commit), nothing written outside the transaction. Control-flow-level claim; the defects F-C10 (a failed commit stayed in the cache) and F-C10b (an error returned after the commit), both fixed, were found by it.",
+         "own MIR path walker (vk/mirsmt/corowalk.py, commitw.py, txn.py) + z3; callees opaque; counterexamples confirmed by native_commitfail (real Directory over a database that refuses the commit write, with and without cache); what the callees (tree insertion, database) do under a failing read is not covered"),
  "C13": ("Two solver-decided facts about the real code. (1) Bounded model checking (Kani/CBMC over the compiled akd crate) of the single node-selection function every reader uses: for ALL stored records and ALL target epochs the selected node is never newer than the target (or NotFound) - the kernel whose defect (F-C13, fixed) let a lagging instance return a root hash labelled with the wrong epoch. (2) Data-abstracted model checking of the request coroutines: the control-flow graphs of all async bodies reachable from get_epoch_hash / lookup / batch_lookup / key_history / audit are extracted from the rustc MIR of /repo and z3's fixedpoint engine decides that no path reads the epoch record twice (the defect F-C13b, fixed, was such a path: a history answer stitched from two epochs). Interleavings themselves are outside the claim.",
          'Kani 0.68 / CBMC 6.11 (cadical); z3 fixedpoint (Datalog) over MIR CFGs, every branch nondeterministic (over-approximation; counterexamples confirmed by the native schedule search native_stitch); poller, cache flush timing and concurrent publishes as such not covered'),
  "C11": ("Bounded model checking of the two kernels that make a partially written commit invisible: the real reader selection composed with a restatement of the writer's record shift (all records, all contents), and the commit ordering priority (epoch record last).",
